@@ -160,3 +160,96 @@ impl<KG: KeGroup> SecretKey<KG> for RemoteKey<KG> {
             .map_err(|e| e.into_custom::<RemoteErr>())
     }
 }
+
+// ---------------------------------------------------------------------------------------------
+// An external key whose serialized form is a 16-byte slot handle: `Len` differs from the private
+// key length of every supported group (32 / 48 / 66), as in the crate's own "Remote Private Keys"
+// documentation example (`type Len = U0`).  Same journal and fault plan as `RemoteKey`.
+
+thread_local! {
+    /// when set, the suite adapters build `ServerSetup<CS, RemoteKeyH<KG>>` instead of `ServerSetup<CS, RemoteKey<KG>>`
+    static SHORT_HANDLE: RefCell<bool> = const { RefCell::new(false) };
+    static SLOTS: RefCell<Vec<Vec<u8>>> = const { RefCell::new(Vec::new()) };
+}
+
+pub fn set_short_handle(on: bool) {
+    SHORT_HANDLE.with(|h| *h.borrow_mut() = on);
+    if !on {
+        SLOTS.with(|t| t.borrow_mut().clear());
+    }
+}
+pub fn short_handle() -> bool {
+    SHORT_HANDLE.with(|h| *h.borrow())
+}
+
+pub const SLOT_TAG: &[u8; 8] = b"HSM-SLOT";
+
+fn slot_of(sk: &[u8]) -> [u8; 16] {
+    let idx = SLOTS.with(|t| {
+        let mut t = t.borrow_mut();
+        match t.iter().position(|k| k == sk) {
+            Some(i) => i,
+            None => {
+                t.push(sk.to_vec());
+                t.len() - 1
+            }
+        }
+    });
+    let mut h = [0u8; 16];
+    h[..8].copy_from_slice(SLOT_TAG);
+    h[8..].copy_from_slice(&(idx as u64 + 1).to_be_bytes());
+    h
+}
+fn slot_lookup(handle: &[u8]) -> Option<Vec<u8>> {
+    if handle.len() != 16 || &handle[..8] != SLOT_TAG {
+        return None;
+    }
+    let idx = u64::from_be_bytes(handle[8..].try_into().ok()?) as usize;
+    SLOTS.with(|t| t.borrow().get(idx.checked_sub(1)?).cloned())
+}
+
+pub struct RemoteKeyH<KG: KeGroup> {
+    inner: PrivateKey<KG>,
+}
+
+impl<KG: KeGroup> Clone for RemoteKeyH<KG> {
+    fn clone(&self) -> Self {
+        RemoteKeyH { inner: self.inner.clone() }
+    }
+}
+
+impl<KG: KeGroup> RemoteKeyH<KG> {
+    pub fn new(inner: PrivateKey<KG>) -> Self {
+        RemoteKeyH { inner }
+    }
+}
+
+impl<KG: KeGroup> SecretKey<KG> for RemoteKeyH<KG> {
+    type Error = RemoteErr;
+    type Len = generic_array::typenum::U16;
+
+    fn diffie_hellman(&self, pk: PublicKey<KG>) -> Result<GenericArray<u8, KG::PkLen>, InternalError<Self::Error>> {
+        enter::<RemoteErr>(RemoteCall::DiffieHellman(pk.serialize().to_vec()))?;
+        self.inner.diffie_hellman(pk).map_err(|e| e.into_custom::<RemoteErr>())
+    }
+
+    fn public_key(&self) -> Result<PublicKey<KG>, InternalError<Self::Error>> {
+        enter::<RemoteErr>(RemoteCall::PublicKey)?;
+        self.inner.public_key().map_err(|e| e.into_custom::<RemoteErr>())
+    }
+
+    fn serialize(&self) -> GenericArray<u8, Self::Len> {
+        CALLS.with(|c| c.borrow_mut().push(RemoteCall::Serialize));
+        GenericArray::clone_from_slice(&slot_of(&self.inner.serialize()))
+    }
+
+    fn deserialize(input: &[u8]) -> Result<Self, InternalError<Self::Error>> {
+        enter::<RemoteErr>(RemoteCall::Deserialize(input.to_vec()))?;
+        let Some(sk) = slot_lookup(input) else {
+            return Err(InternalError::Custom(RemoteErr(0xDEAD)));
+        };
+        PrivateKey::<KG>::deserialize(&sk)
+            .map(RemoteKeyH::new)
+            .map_err(|e| e.into_custom::<RemoteErr>())
+    }
+}
